@@ -17,4 +17,16 @@ SMPrefix == (~done /\ Inside) => ~Decode(text).ok
 SMNoUnderflow == NoUnderflowS(Run(Run(SMInit, text), <<32>>))
 SMChunks == \A k \in 0..Len(text) :
                Run(Run(SMInit, SubSeq(text, 1, k)), SubSeq(text, k + 1, Len(text))) = Run(SMInit, text)
+
+\* the four invariants in one evaluation (the machine is run once per prefix): this is what the configurations check
+RECURSIVE PrefixStates(_, _, _)
+PrefixStates(s, t, i) == IF i > Len(t) THEN <<s>> ELSE <<s>> \o PrefixStates(Step(s, t[i]), t, i + 1)
+SMAll == LET ps == PrefixStates(SMInit, text, 1)                    \* ps[k+1] = state after the first k bytes
+             full == ps[Len(text) + 1]
+             endst == Run(full, <<32>>)
+             r == Result(endst)
+         IN /\ NoUnderflowS(endst)
+            /\ done => (r.ok /\ SameVal(r.v, val))
+            /\ (~done /\ Inside) => ~r.ok
+            /\ \A k \in 0..Len(text) : RunFrom(ps[k + 1], text, k + 1) = full
 ===============================================================================
